@@ -245,7 +245,30 @@ def check_decimal128(repo, rep):
     while not isinstance(stmt, ast.stmt):
         stmt = stmt._parent
     X = lin_opaque(sp.at(stmt, sc[0].args[0]), env).scale(-1)
-    atoms = [k for k in X.t if "adjusted()" in k]
+    import re as _re
+    # the position of the leading digit: ``dec.adjusted()``, guarded for zero or not (adjusted() of zero is the exponent of
+    # the zero, any digit count serves); anything else wrapped around it (max(.., 0), abs(..)) moves the window for some values
+    def _leading_digit_atom(k):
+        try:
+            e_ = ast.parse(k.strip("<>"), mode="eval").body
+        except SyntaxError:
+            return False
+        def adj(c_):
+            return isinstance(c_, ast.Call) and isinstance(c_.func, ast.Attribute) and c_.func.attr == "adjusted" and not c_.args
+        if adj(e_):
+            return True
+        if isinstance(e_, ast.IfExp) and adj(e_.body) and try_const(e_.orelse) == 0:
+            who = U(e_.body.func.value)
+            t_ = e_.test
+            return U(t_) == who or (isinstance(t_, ast.Compare) and len(t_.ops) == 1 and isinstance(t_.ops[0], ast.NotEq) and U(t_.left) == who and try_const(t_.comparators[0]) == 0)
+        return False
+    atoms = [k for k in X.t if _leading_digit_atom(k)]
+    odd = [k for k in X.t if "adjusted()" in k and k not in atoms]
+    if odd:
+        rep.ob("C01.R3", sc[0], "_pack_decimal128: the digits kept start at the leading digit of the value", False,
+               f"the scale exponent is built from `{odd[0][:60]}`, not from the position of the leading digit alone: values whose leading digit is further right "
+               "(|x| < 1) keep fewer significant digits or none (6.6e-34 is stored as 0)", key="C01.R3@_pack_decimal128:digits")
+        return
     if len(X.t) == 1 and len(atoms) == 1 and X.t[atoms[0]] == 1:
         kk = -X.c
         ok = 16 <= kk <= 33
